@@ -13,7 +13,7 @@ from streams.cluster import hx
 
 NO_MODEL = True
 HEADER = 3
-REQUIRED_SHAPES = ["join", "leave", "read_with_previous_owner", "delete_with_previous_owner", "overwrite_with_previous_owner", "between_table_moves",
+REQUIRED_SHAPES = ["join", "leave", "stacked_handovers", "read_with_previous_owner", "delete_with_previous_owner", "overwrite_with_previous_owner", "between_table_moves",
                    "stable_all_members_read", "exactly_once_primary", "backups_kept", "prefixed_dmap_name"]
 DMS = ["dm", "dmap.x", "x"]
 
@@ -44,6 +44,8 @@ class Oracle:
             return None
         if name == "c.add":
             self.alive.add(int(reply.split()[1]))
+            if self.handover:
+                self.hit("stacked_handovers")
             self.handover = True
             self.hit("join")
             return None
@@ -167,6 +169,23 @@ class Gen:
             if rep == "not-converged":
                 return
             yield "c.update"
+            if r.random() < 0.45 and len(alive) < min(5, parts):
+                # a second hand-over stacked on the first: nothing has moved yet, keys are overwritten on the new owner
+                # (the first owner keeps the old version), then the next member joins: owners [A, B, C]
+                for d, key in r.sample(keys, 10):
+                    ver[0] += 1
+                    yield "c.put emb %d %s %s %s" % (r.choice(alive), d, key, hx(b"s%d" % ver[0]))
+                yield "c.add nosync"
+                alive.append(total)
+                total += 1
+                rep = yield "c.converge"
+                if rep == "not-converged":
+                    return
+                yield "c.update"
+                for d, key in r.sample(keys, 8):
+                    yield "c.del emb %d %s %s" % (r.choice(alive), d, key)
+                    for m in r.sample(alive, min(2, len(alive))):
+                        yield "c.get emb %d %s %s" % (m, d, key)
             # previous owners still hold everything: reads, overwrites, deletes from every member
             for op in op_mix(10):
                 yield op
